@@ -40,7 +40,8 @@ def _strategy(draw):
         spec = draw(gc.system(max_res=8, max_total_mol=4))
     by_name = {mt["name"]: mt for mt in spec["moltypes"]}
     edge = gc.dilute_box(spec) + 1.0
-    if kind == "cone" and draw(st.booleans()):
+    near_face = kind == "geom" and draw(st.integers(0, 2)) == 0
+    if (kind == "cone" and draw(st.booleans())) or near_face:
         edge = max(3.5, edge - 3.0)           # smaller box: restricted steps cross faces
     box = [edge, edge, edge]
     opts = {"box": box}
@@ -59,7 +60,23 @@ def _strategy(draw):
     hi = draw(st.integers(lo + 1, run_end + 1))
     mt = by_name[name]
     nres = len(mt["residues"])
-    if kind == "geom":
+    wall = kind == "geom" and near_face and draw(st.booleans())
+    if wall:
+        # a forbidden slab along one box face for every residue of the selected molecules: the only way into
+        # it is a step across that face
+        build += ["[ molecule ]", f"{name} {lo} {hi}"]
+        axis = draw(st.integers(0, 2))
+        side = draw(st.booleans())
+        centre = [edge / 2.0] * 3
+        centre[axis] = round(edge - 0.3, 2) if side else 0.3
+        params = [float(edge)] * 3
+        params[axis] = 0.3
+        for resname in sorted({r["resname"] for r in mt["residues"]}):
+            build += ["[ rectangle ]", f"{resname} 1 {nres + 1} out " + " ".join(repr(float(c)) for c in centre)
+                      + " " + " ".join(repr(float(p)) for p in params)]
+            restraints.append({"kind": "rectangle", "mol": name, "lo": lo, "hi": hi, "resname": resname, "r0": 1, "r1": nres + 1,
+                               "inout": "out", "centre": centre, "params": params})
+    elif kind == "geom":
         build += ["[ molecule ]", f"{name} {lo} {hi}"]
         for _ in range(draw(st.integers(1, 2))):
             resname = draw(st.sampled_from(sorted({r["resname"] for r in mt["residues"]})))
@@ -70,9 +87,15 @@ def _strategy(draw):
             if inout == "in":
                 centre = [edge / 2.0] * 3
                 size = round(max(1.5, 0.4 * edge), 2)
+                if near_face:
+                    # a region that reaches past a box face: a step across that face leaves the region
+                    centre[draw(st.integers(0, 2))] = round(draw(st.sampled_from([0.2, 0.8])) * edge, 2)
             else:
                 centre = [round(draw(st.sampled_from([0.25, 0.75])) * edge, 2) for _ in range(3)]
                 size = 1.0
+                if near_face:
+                    # a forbidden region that touches a box face: it can be entered by a step across the face
+                    centre[draw(st.integers(0, 2))] = round(draw(st.sampled_from([0.04, 0.96])) * edge, 2)
             if shape == "sphere":
                 params = [size]
             elif shape == "cylinder":
